@@ -1,11 +1,15 @@
-import TinodeVerif.Props.C18
+import TinodeVerif.Model.TxSkel
 namespace Tinode.Driver.C18
 open Tinode.Gen.TxSkel
 
 /-- search over the regenerated table: the functions, return sites and statements that break well-formedness -/
 def report : String :=
   let bad := fns.filter (fun f => !(exempt.contains f.name) && !f.wf)
-  if bad.isEmpty then s!"none functions={fns.length}" else
+  let newTol := tolerated.filter (fun t => !expectedTolerated.contains t)
+  let goneTol := expectedTolerated.filter (fun t => !tolerated.contains t)
+  if bad.isEmpty && newTol.isEmpty && goneTol.isEmpty then s!"none functions={fns.length}" else
+  if bad.isEmpty then
+    s!"tolerated-error-set-changed new=[{"; ".intercalate newTol}] gone=[{"; ".intercalate goneTol}]".replace " " "_" else
   let descr := bad.map (fun f =>
     let rs := (f.rets.filter (fun r => !(r.closes && r.reports))).map (fun r => s!"return@{r.line}:{r.kind}:{r.detail}:guardedE={r.guardedE}")
     let cs := (f.calls.filter (fun c => !c.covered)).map (fun c => s!"stmt@{c.line}:{c.callee}->{c.dest}:{c.var}")
